@@ -6,7 +6,7 @@ readonly() guard, never-commit rule for subscription SQL).
 import re
 
 from corrolint import flow
-from corrolint.facts import op_place, op_const, op_local
+from corrolint.facts import op_place, op_const, op_local, rvalue_operands
 from . import common as cm
 
 SETUP = "klukai_agent::agent::util::setup_http_api_handler"
@@ -99,6 +99,45 @@ def routes(ctx):
 
 
 # ------------------------------------------------------------------------------------------------ deny
+def _deny_inline(ctx, R, b, run_):
+    """require_authz written as one `match (configured token, header)` with the comparison in the function body itself"""
+    F = ctx.F
+    eqs = [c for x in F.family(b) for c in x.calls if c.f in ("core::cmp::PartialEq::eq", "core::cmp::PartialEq::ne") and re.search(r"str|String", c.self_ty)]
+    if not R.require(len(eqs) == 1 and eqs[0].body is b, "token-compare", b.where(), "one string equality decides the header match",
+                     fail_msg="expected exactly one str equality in require_authz, found %d (prefix/contains/case-insensitive compare?)" % len(eqs)):
+        return
+    c = eqs[0]
+    s0, s1 = cm.origin_summary(cm.operand_origins(b, c, 0)), cm.origin_summary(cm.operand_origins(b, c, 1))
+    R.require(any("token" in x for x in s0 + s1) and c.name() == "eq", "token-operands", c.where(), "compares header.token() with the configured token by `==` (%s vs %s)" % (s0, s1),
+              fail_msg="require_authz does not compare header.token() == configured token: %s %s %s" % (s0, c.name(), s1))
+    weak = [x for y in F.family(b) for x in y.calls if re.search(r"::(starts_with|ends_with|contains|eq_ignore_ascii_case|find|to_lowercase|trim\w*)$", x.f)]
+    R.require(not weak, "no-weak-compare", b.where(), "no prefix/substring/case-folding call", fail_msg="require_authz uses %s" % (weak[0].f if weak else ""))
+    # the switch on the configured token (Option): a discriminant read of a place that originates in `.authorization`
+    none_t = None
+    for bb in b.live_blocks():
+        t = b.term(bb)
+        if t["t"] != "sw":
+            continue
+        for st in b.blocks[bb]["s"]:
+            if st[0] == "A" and st[2][0] == "disc" and op_local(t["d"]) == st[1][0]:
+                org = flow.origins(b, st[2][1], at=(bb, "T"))
+                if any("authorization" in o.field_names() for o in org) and none_t is None:
+                    m = {v: x for v, x in t["targets"]}
+                    none_t = m.get(0, t["else"])
+    if not R.anchor(none_t, "authorization-switch", "match on config.api.authorization"):
+        return
+    r_true, _ = flow.eval_guard(b, {c.bb: True}, start=c.bb)
+    r_false, _ = flow.eval_guard(b, {c.bb: False}, no_nodes={none_t})
+    R.require(run_.bb in r_true and run_.bb not in r_false, "forward-iff-match", run_.where(),
+              "with a configured token next.run is reached iff the token comparison is true (true: %s, false/absent: %s)" % (run_.bb in r_true, run_.bb in r_false),
+              fail_msg="with a configured token next.run is reachable although the token comparison is false or was never made (true: %s, false/absent: %s)" % (run_.bb in r_true, run_.bb in r_false))
+    named = [k["named"] for bl in b.blocks for st in bl["s"] if st[0] == "A" for op in rvalue_operands(st[2]) for k in [op_const(op)] if k and "named" in k and "StatusCode" in k.get("t", "")]
+    R.require(any(re.search(r"StatusCode::(UNAUTHORIZED|FORBIDDEN)$", n) for n in named), "status-4xx", b.where(), "the denial status is 401/403 (%s)" % named,
+              fail_msg="require_authz's denial status is not 401/403: %s" % named)
+    cfg = [x for x in b.calls if (x.t.get("r") or x.f) == "klukai_types::agent::Agent::config"]
+    R.require(bool(cfg), "cfg", b.where(), "the token is read from agent.config() at request time", fail_msg="require_authz no longer reads agent.config()")
+
+
 def deny(ctx):
     F = ctx.F
     R = ctx.rule("C17.deny", "K2+K9", "require_authz forwards the request only when no token is configured or the bearer token equals the configured one; otherwise returns a 4xx")
@@ -111,6 +150,8 @@ def deny(ctx):
     run_ = runs[0]
     # header match value: Option::map(header, closure).unwrap_or(false)
     uw = [c for c in b.calls if re.search(r"Option::<T>::(unwrap_or|is_some_and|map_or|unwrap_or_default)$", c.f) and c.t.get("dty") == "bool"]
+    if not uw:
+        return _deny_inline(ctx, R, b, run_)
     if not R.require(len(uw) == 1, "header-match", b.where(), "one bool-valued Option combinator computing the header match",
                      fail_msg="expected one bool-valued Option combinator (map(..).unwrap_or(false)) in require_authz, found %d" % len(uw)):
         return
